@@ -249,7 +249,9 @@ func c18Shapes(quick bool) []Shape {
 	}})
 	// programs named by an identifier, and result variables that carry the name of the program they came from
 	sh = append(sh, Shape{Name: "program-named-by-identifier", Pre: pre, Prog: func(c *gosym.Ctx) *Program {
-		id := func(name string, args ...Expr) Expr { return AppCallE{Calls: []AppOne{{Name: name, Args: args, Ident: true}}} }
+		id := func(name string, args ...Expr) Expr {
+			return AppCallE{Calls: []AppOne{{Name: name, Args: args, Ident: true}}}
+		}
 		return Prog(
 			DefN([]string{"echo", "e1", "c1"}, id("echo", S("first"), S("call"))), DefN([]string{"out", "e2", "c2"}, id("echo", S("second"))), Pr(V("echo"), V("c1"), V("out"), V("c2")),
 			DefN([]string{"t1", "t2", "t3"}, id("basename", S("/x/yy"))), Pr(S("["), V("t1"), S("]"), V("t3")),
